@@ -173,6 +173,16 @@ func c06OddGroups() (names []string, wires [][]byte, parsers []*dict.Parser) {
 			names = append(names, fmt.Sprintf("odd-group/%s(%d)/%s", g.name, g.code, sh.name))
 			wires = append(wires, refcodec.EncodeMessage(g.hdr, []refcodec.Node{n}))
 			parsers = append(parsers, g.p)
+			if sh.name == "valid-member" || sh.name == "empty" {
+				// the same with the deprecated P flag (and a reserved bit) set on the grouped AVP
+				for _, extra := range []uint8{0x20, 0x08} {
+					n2 := n
+					n2.Flags |= extra
+					names = append(names, fmt.Sprintf("odd-group/%s(%d)/%s/flags%#x", g.name, g.code, sh.name, n2.Flags))
+					wires = append(wires, refcodec.EncodeMessage(g.hdr, []refcodec.Node{n2}))
+					parsers = append(parsers, g.p)
+				}
+			}
 		}
 	}
 	return
@@ -223,8 +233,13 @@ func c06Take(m *diam.Message) (s c06Snap, err string) {
 	if e != nil {
 		return s, e.Error()
 	}
+	// ... and an answer is built from it (a deferred answer, composed while the connection goes on
+	// receiving): that must not change the request either
+	if a := m.Answer(2001); a != nil {
+		_, _ = a.Serialize()
+	}
 	if after := fmt.Sprintf("%s | header %+v", m.String(), *m.Header); after != str {
-		return s, fmt.Sprintf("the retained message changed when it was re-serialised: before %q, after %q", clip(str), clip(after))
+		return s, fmt.Sprintf("the retained message changed when it was re-serialised / answered: before %q, after %q", clip(str), clip(after))
 	}
 	return c06Snap{wire: b, str: str}, ""
 }
